@@ -425,8 +425,8 @@ FixupSeq == IF FixupOrder = "storage" THEN SortBy(Supers, lsubOff)
             ELSE [i \in 1..nsuper |-> i]
 JoinAll == /\ mpc = "run" /\ AllExit
            /\ mpc' = "fixup"
-           /\ fixq' = FixupSeq
-           /\ moved' = {} /\ fdst' = 1 /\ fixok' = TRUE
+           /\ fixq' = IF N <= 1 THEN <<>> ELSE FixupSeq          \* fixupL returns at once when n <= 1
+           /\ moved' = (IF N <= 1 THEN Supers ELSE {}) /\ fdst' = 1 /\ fixok' = TRUE
            /\ minfo' = LET S == {sing[p] : p \in Procs} \ {0}
                        IN IF S = {} THEN 0 ELSE CHOOSE m \in S : \A x \in S : m <= x
            /\ UNCHANGED <<sch, lu, pc, loc, pivcnt, zset>>
